@@ -163,7 +163,7 @@ func (propC09) Check(r *Run) []Violation {
 		}
 		// reference state at request time
 		healthy := map[string]bool{}
-		listsExact := map[string]bool{}   // lists a name equal to the spelling, ignoring case
+		listsExact := map[string]bool{}    // lists a name equal to the spelling, ignoring case
 		listsGenerous := map[string]bool{} // lists a name with the same stem
 		ambiguous := false
 		for i := range r.Plan.Endpoints {
